@@ -1085,6 +1085,9 @@ var c08Corpus = []c08CorpusItem{ //nolint:gochecknoglobals
 	{"ccs-2", "14fefd000000000000f007000102"},
 	{"ack-epoch0-bad", "1afefd000000000000f008000100"},
 	{"cid-type-epoch0", "19fefd000000000000f0090003010203"},
+	{"rrc-epoch0-short", "1bfefd000000000000f00b0003000102"},
+	{"ccs-epoch1-bad", "14fefd000100000000f00a00010200"[:28]},
+	{"ccs-epoch1-bad2", "14fefd000100000000f00c00020101"},
 	{"F3-cke-2byte-mseq1", "16fefd000000000000ff02000e1000000200010000000000020000"},
 	{"F3-cke-2byte-mseq2", "16fefd000000000000ff03000e1000000200020000000000020000"},
 	{"F3-cke-2byte-mseq3", "16fefd000000000000ff04000e1000000200030000000000020000"},
